@@ -431,6 +431,15 @@ pub fn one_run(shape: &Shape, ex: &mut Explorer) -> (Vec<Value>, Value, bool) {
     // end of run: the four indexes, the statuses, what every supervision port received
     let (snap_end, _) = w.snapshot();
     let st_end = w.statuses();
+    let mut q_end = vec![];
+    for sc in ["d", "s1"] {
+        for gr in GROUPS {
+            let mut q = w.query(sc, gr);
+            q.as_object_mut().unwrap().insert("sc".into(), json!(sc));
+            q.as_object_mut().unwrap().insert("gr".into(), json!(gr));
+            q_end.push(q);
+        }
+    }
     let mut inbox = Map::new();
     for (i, d) in dets.iter_mut().enumerate() {
         inbox.insert(format!("a{}", i + 1), json!(inbox_json(d, &w)));
@@ -479,7 +488,7 @@ pub fn one_run(shape: &Shape, ex: &mut Explorer) -> (Vec<Value>, Value, bool) {
         }
         evs.push(j);
     }
-    evs.push(json!({"a": "obs.end", "who": "drv", "obj": "", "d": 0, "t": 0, "snap": snap_end, "st": st_end, "inbox": Value::Object(inbox)}));
+    evs.push(json!({"a": "obs.end", "who": "drv", "obj": "", "d": 0, "t": 0, "snap": snap_end, "st": st_end, "inbox": Value::Object(inbox), "q": q_end}));
     evs.push(json!({"a": "obs.leak", "who": "drv", "obj": "", "d": left, "t": 0}));
     let bad = run_res.overrun || !run_res.stuck.is_empty();
     let st0: Map<String, Value> = (0..NACT).map(|i| (format!("a{}", i + 1), json!(shape.st0[i] as i64))).collect();
@@ -553,7 +562,7 @@ pub fn random_shape(rng: &mut Rng, n: u64) -> Shape {
         }
         threads.push(ops);
     }
-    Shape { name: format!("random-{n}"), st0, threads, snap: rng.chance(1, 3) }
+    Shape { name: format!("random-{n}"), st0, threads, snap: rng.chance(1, 2) }
 }
 
 fn explore_shape(b: &mut Batch, sh: &Shape, ex: &mut Explorer, cap: usize, nontrivial: &mut std::collections::HashSet<u64>, bad_runs: &mut u64) {
@@ -584,14 +593,16 @@ pub fn batch(out: &str, scale: usize, seed: u64) -> Value {
     let mut bad_runs = 0u64;
     let mut rng = Rng(seed ^ 0x7067_7067);
     for sh in fixed_shapes() {
+        let mut shs = sh.clone();
         for bound in [1u32, 2u32] {
+            // a snapshot after every step pins the order of the regions for lenient validation
+            shs.snap = bound == 1;
             let mut ex = Explorer::new(Mode::Dfs { preempt_bound: Some(bound) }, seed);
-            explore_shape(&mut b, &sh, &mut ex, dfs_cap, &mut nontrivial, &mut bad_runs);
+            explore_shape(&mut b, &shs, &mut ex, dfs_cap, &mut nontrivial, &mut bad_runs);
         }
         let mut ex = Explorer::new(Mode::Random, rng.next());
-        let mut shs = sh.clone();
-        for i in 0..rnd {
-            shs.snap = i % 4 == 0;
+        shs.snap = true;
+        for _ in 0..rnd {
             explore_shape(&mut b, &shs, &mut ex, 1, &mut nontrivial, &mut bad_runs);
         }
     }
